@@ -990,7 +990,13 @@ func (s *Store) monitorLeaseAsPrimary(ctx context.Context, lease Lease) error {
 			//
 			// If we just have a connection error then we'll try to more
 			// aggressively retry the renewal until we exceed TTL.
-			if err := lease.Renew(ctx); err == ErrLeaseExpired {
+			//
+			// A renewal that has not been answered by the time the lease runs
+			// out counts as failed: it must not keep this node primary.
+			renewCtx, cancel := context.WithDeadline(ctx, lease.RenewedAt().Add(lease.TTL()-timeout))
+			err := lease.Renew(renewCtx)
+			cancel()
+			if err == ErrLeaseExpired {
 				return err
 			} else if err != nil {
 				// If our next renewal will exceed TTL, exit now.
